@@ -11,7 +11,8 @@ RULE = ("Cases = ragged arrays with at least one non-empty row (empty rows anywh
         "dtype bool / signed / unsigned / float with |int| <= 2**40 and exact dyadic floats (plus inf/nan), operand fresh or "
         "pending view.  Oracle = explicit column lists [row[j] for row in rows if len(row) > j]: sum(axis=0) by value "
         "(bool: count of True), col_counts = list lengths, mean(axis=0) = sum/count within 2 ulp, get_column_values(j) = "
-        "the list in row order with the array's dtype.  Non-trivial = at least two distinct row lengths and an empty row.")
+        "the list in row order with the array's dtype.  Non-trivial = at least two distinct row lengths and an empty row."
+        "  Shapes include near-rectangular ones (a rectangle with up to three cells moved between rows); every aggregate is asked twice, the array returned first being overwritten in between.")
 ASSUMPTIONS = ["the dtype of sum(axis=0) is not asserted (the library returns float64 from bincount; the property speaks of values)",
                "integer magnitudes <= 2**40 so that float64 accumulation is exact"]
 
